@@ -19,7 +19,7 @@ ASSUMPTIONS = ["column spans are located with the table's own width vector and c
                "presence of a character is asserted only when the column's observed content width (span minus the full "
                "padding) admits its widest character: the width solver does not promise every column its minimum",
                "the unique alphabet excludes box glyphs, the ellipsis and guide glyphs"]
-REQUIRED = ["mon.rectangle", "mon.expand_exact", "mon.title_metamorphic", "mon.row_order", "mon.in_column", "mon.presence"]
+REQUIRED = ["mon.twin_with_other_overflow_rendered_first", "mon.rectangle", "mon.expand_exact", "mon.title_metamorphic", "mon.row_order", "mon.in_column", "mon.presence"]
 MIN_NONTRIVIAL = {"quick": 2000, "thorough": 100000}
 
 
@@ -161,6 +161,13 @@ def wl_tables(ctx, rng, case_no):
             avail = m + int((W - m) * own_width)
             bare["width"] = avail
             spec = dict(spec, width=avail)
+        if case_no % 3 == 0:
+            # history: the same cells were laid out before, in this process and at this width, by a table that differs
+            # only in how its columns treat words that do not fit (a memo of wrapping decisions must not carry them over)
+            ctx.count("mon.twin_with_other_overflow_rendered_first")
+            twin = dict(bare, columns=[dict(c, overflow=("ellipsis" if (i + case_no) % 2 == 0 else "crop"))
+                                       for i, c in enumerate(bare["columns"])])
+            visible_lines(console, SP.build(twin))
         table = SP.build(bare)
         lw, lines = visible_lines(console, table)
         wit = {"spec": spec, "width": W, "structural_min": m, "lines": lines[:60]}
